@@ -80,7 +80,7 @@ def apalache_roundtrip(ctx):
            os.path.join(SPEC, "Civil_lemmas_apa.tla")]
     t = time.time()
     try:
-        p = subprocess.run(cmd, cwd=ctx.work, stdout=subprocess.PIPE, stderr=subprocess.STDOUT, text=True, timeout=1200)
+        p = subprocess.run(cmd, cwd=ctx.work, stdout=subprocess.PIPE, stderr=subprocess.STDOUT, text=True, timeout=3600)
         txt = p.stdout
     except subprocess.TimeoutExpired:
         txt = "TIMEOUT"
@@ -505,7 +505,7 @@ def unshare_ok():
     import subprocess
     try:
         p = subprocess.run(["unshare", "-m", "sh", "-c", "mount --bind /etc/hostname /etc/hostname"], stdout=subprocess.PIPE,
-                           stderr=subprocess.PIPE, timeout=20)
+                           stderr=subprocess.PIPE, timeout=120)
         return p.returncode == 0
     except Exception:
         return False
@@ -515,7 +515,7 @@ def local_resolve_with(path):
     """Offset::Local.resolve() with `path` bind-mounted over /etc/localtime in a private mount namespace."""
     import subprocess
     cmd = "mount --bind '%s' /etc/localtime && '%s' local-resolve" % (path, harness_bin())
-    p = subprocess.run(["unshare", "-m", "sh", "-c", cmd], stdout=subprocess.PIPE, stderr=subprocess.PIPE, text=True, timeout=60)
+    p = subprocess.run(["unshare", "-m", "sh", "-c", cmd], stdout=subprocess.PIPE, stderr=subprocess.PIPE, text=True, timeout=300)
     lines = [l for l in p.stdout.splitlines() if l.startswith("{")]
     if not lines:
         return {"k": "crash", "rc": p.returncode, "stderr": p.stderr[-300:]}
@@ -970,6 +970,20 @@ def main():
             ctx.cleanup()
             return rc
         return CHECKS[pid](ctx)
+    except Hang as h:
+        # a call that does not come back is an observation about the code under test, not a tool problem
+        if replay:
+            log("VIOLATION property=%s replay=%s" % (pid, replay))
+            log("  clause=%s.no_return witness=%s" % (pid, json.dumps(h.what)[:600]))
+            ctx.cleanup()
+            return 1
+        w = h.what.get("what")
+        witness = dict(w) if isinstance(w, dict) else {"what": w}
+        witness.update({"limit_s": h.what.get("limit_s"), "harness": h.harness_args[:6]})
+        ctx.violations.append({"clause": pid + ".no_return", "class": "no_return", "witness": witness})
+        return finish(ctx, rule="the run was stopped: a call into the code under test did not return within the watchdog's deadline "
+                      "(VERIF_HANG_SECS, default 120 s per call); what had been checked until then is in the counters",
+                      trusted=["harness watchdog"])
     except ToolError as e:
         log("TOOL-ERROR: %s" % e)
         ctx.cleanup()
